@@ -63,7 +63,8 @@ def gen_program(rng):
     classes = []
     dyn_count = 0
     for i in range(ncls):
-        c = {'id': i, 'name': 'C%d' % i, 'mod': placement[i], 'bases': [], 'items': []}
+        # one class in five is "private" (_C3): still a base class other modules import by name
+        c = {'id': i, 'name': ('_C%d' if rng.random() < 0.2 else 'C%d') % i, 'mod': placement[i], 'bases': [], 'items': []}
         anc = set()       # class ids and builtin names reachable
         depth = 1
         nb = rng.choice([0, 1, 1, 1, 2, 2, 3])
@@ -141,10 +142,11 @@ def _layout(anc):
     return bool({'dict', 'Exception'} & set(anc))
 
 
-def import_forms(importer_pkg, target_mod):
-    """the ways module `target_mod` can be reached from a file in package `importer_pkg` (None = top level)"""
+def import_forms(importer_pkg, target_mod, cname=''):
+    """the ways module `target_mod` can be reached from a file in package `importer_pkg` (None = top level); a star import does not
+    bind a class whose name starts with an underscore"""
     pkg = target_mod['pkg']
-    forms = ['import', 'from', 'as', 'star']
+    forms = ['import', 'from', 'as'] + ([] if cname.startswith('_') else ['star'])
     if pkg:
         forms.append('frompkg')
         if importer_pkg == pkg:
@@ -191,7 +193,7 @@ def render(prog, rng):
                     need.append(b)
         for b in need:
             tm = mods[classes[b]['mod']]
-            form = rng.choice(import_forms(m['pkg'], tm))
+            form = rng.choice(import_forms(m['pkg'], tm, classes[b]['name']))
             prog['import_forms_used'][form] = prog['import_forms_used'].get(form, 0) + 1
             stmt, expr = import_line(form, tm, classes[b]['name'], 'Z%d' % b)
             exprs[b] = expr
@@ -320,7 +322,7 @@ def query_source(prog, cid, form, imp_form, tail, stats=None):
         return m['rel'], '\n'.join(lines)
     in_pkg = bool(m['pkg']) and imp_form % 2 == 1
     rel = os.path.join(PKG, 'c6q.py') if in_pkg else 'c6q.py'
-    forms = import_forms(PKG if in_pkg else None, m)
+    forms = import_forms(PKG if in_pkg else None, m, c['name'])
     if form == 'module':
         forms = [f for f in forms if f in ('import', 'frompkg', 'relmod')]
     f = forms[(imp_form // 2) % len(forms)]
